@@ -21,9 +21,11 @@ impl<'ast, 'a> Visit<'ast> for IfCmp<'a> {
         syn::visit::visit_expr_if(self, i);
     }
 }
-fn if_cmp(block: &syn::Block, needle: &str) -> Option<String> {
+fn if_cmp(blocks: &[&syn::Block], needle: &str) -> Option<String> {
     let mut v = IfCmp { needle, found: None };
-    v.visit_block(block);
+    for b in blocks {
+        v.visit_block(b);
+    }
     v.found
 }
 fn cmp_name(op: &str) -> Result<&'static str, String> {
@@ -46,25 +48,33 @@ pub fn generate(repo: &PathBuf) -> Result<String, String> {
     let check = impl_fn(&file, "Register", None, "check_register_op")?;
     let mergeable = impl_fn(&file, "Register", None, "verify_is_mergeable")?;
 
-    let v_num = if_cmp(&verify.block, "MAX_REG_NUM_ENTRIES").ok_or("verify: no entry-count guard")?;
-    let v_size = if_cmp(&verify.block, "MAX_REG_ENTRY_SIZE").ok_or("verify: no entry-size guard")?;
-    let a_num = if_cmp(&add_op.block, "MAX_REG_NUM_ENTRIES").ok_or("add_op: no entry-count guard")?;
-    let a_size = if_cmp(&add_op.block, "MAX_REG_ENTRY_SIZE").ok_or("add_op: no entry-size guard")?;
-    let vc = calls_in_block(&verify.block);
+    // each modelled function together with the private same-file helpers it calls (an "extract helper" refactoring must
+    // not change what is read); the modelled functions themselves are never looked through
+    const STOP: [&str; 8] = ["verify", "add_op", "merge", "verified_merge", "check_register_op", "verify_is_mergeable", "check_user_permissions", "verify_signature"];
+    let verify_b = with_private_helpers(&file, &verify.block, &STOP);
+    let add_b = with_private_helpers(&file, &add_op.block, &STOP);
+    let merge_b = with_private_helpers(&file, &merge.block, &STOP);
+    let vmerge_b = with_private_helpers(&file, &vmerge.block, &STOP);
+    let check_b = with_private_helpers(&file, &check.block, &STOP);
+    let v_num = if_cmp(&verify_b, "MAX_REG_NUM_ENTRIES").ok_or("verify: no entry-count guard")?;
+    let v_size = if_cmp(&verify_b, "MAX_REG_ENTRY_SIZE").ok_or("verify: no entry-size guard")?;
+    let a_num = if_cmp(&add_b, "MAX_REG_NUM_ENTRIES").ok_or("add_op: no entry-count guard")?;
+    let a_size = if_cmp(&add_b, "MAX_REG_ENTRY_SIZE").ok_or("add_op: no entry-size guard")?;
+    let vc = calls_in_blocks(&verify_b);
     let verify_checks_owner_sig = vc.methods.iter().any(|m| m == "verify") && vc.methods.iter().any(|m| m == "owner");
     let verify_checks_ops = vc.methods.iter().any(|m| m == "check_register_op");
-    let ac = calls_in_block(&add_op.block);
+    let ac = calls_in_blocks(&add_b);
     let add_checks_op = ac.methods.iter().any(|m| m == "check_register_op");
-    let mc = calls_in_block(&merge.block);
+    let mc = calls_in_blocks(&merge_b);
     let merge_checks_base = mc.methods.iter().any(|m| m == "verify_is_mergeable");
-    let merge_limit = if_cmp(&merge.block, "MAX_REG_NUM_ENTRIES").is_some();
-    let vmc = calls_in_block(&vmerge.block);
+    let merge_limit = if_cmp(&merge_b, "MAX_REG_NUM_ENTRIES").is_some();
+    let vmc = calls_in_blocks(&vmerge_b);
     let vmerge_checks_base = vmc.methods.iter().any(|m| m == "verify_is_mergeable");
     let vmerge_verifies = vmc.methods.iter().any(|m| m == "verify");
-    let vmerge_limit = if_cmp(&vmerge.block, "MAX_REG_NUM_ENTRIES").is_some();
+    let vmerge_limit = if_cmp(&vmerge_b, "MAX_REG_NUM_ENTRIES").is_some();
     // check_register_op: address comparison present? permission check? signature check?
-    let cc = calls_in_block(&check.block);
-    let check_addr = if_cmp(&check.block, "address").map(|c| c == "!=").unwrap_or(false);
+    let cc = calls_in_blocks(&check_b);
+    let check_addr = if_cmp(&check_b, "address").map(|c| c == "!=").unwrap_or(false);
     let check_perm = cc.methods.iter().any(|m| m == "check_user_permissions");
     let check_sig = cc.methods.iter().any(|m| m == "verify_signature");
     let check_anyone_short = cc.methods.iter().any(|m| m == "can_anyone_write");
